@@ -576,7 +576,8 @@ let () =
        let after = (match h_rewrite h { ro_names = true; ro_contents = true; ro_prefixes = [] } with
                     | Ok h2 -> List.map (fun t -> opt_hex' (get_scope_for_token h2 t Z0)) h2.h_sm.sm_tokens
                     | Err _ -> ["err"] | Panic _ -> ["panic"]) in
-       let mo = "ok " ^ String.concat "," per_tok ^ "~" ^ String.concat "," per_off ^ "~" ^ String.concat "," after ^ "~" ^ String.concat "," per_tok in
+       (* 4th part: scopes after write + read (= before, C14_stable); 5th part: scopes after rewrite + write + read (= after rewrite) *)
+       let mo = "ok " ^ String.concat "," per_tok ^ "~" ^ String.concat "," per_off ^ "~" ^ String.concat "," after ^ "~" ^ String.concat "," per_tok ^ "~" ^ String.concat "," after in
        (* property (C14): for sources whose function map is well formed (strictly increasing, kind "s")
           the scope of every token is what the independent reading of the abstract entries says *)
        let impl_tok = (match String.index_opt impl '~' with Some k when String.length impl > 3 -> split_list (String.sub impl 3 (k - 3)) | _ -> []) in
@@ -609,10 +610,10 @@ let () =
          | _ -> true) in
        let prop = (match prop with Some true when not off_ok -> Some false | p -> p) in
        let prop = (match prop, String.split_on_char '~' impl with
-         | Some true, [before; _; aft; reser] when List.length fbs = List.length m.sm_sources ->
-           (* C09 (Hermes): one function map per source -> the scopes are unchanged by rewrite; C14: and by write + read *)
-           Some ((String.sub before 3 (String.length before - 3) = aft || List.length toks = 0) && String.sub before 3 (String.length before - 3) = reser)
-         | Some true, [before; _; aft; reser] -> Some (not (List.mem "panic" (split_list aft)) && String.sub before 3 (String.length before - 3) = reser)
+         | Some true, [before; _; aft; reser; reser2] when List.length fbs = List.length m.sm_sources ->
+           (* C09 (Hermes): one function map per source -> the scopes are unchanged by rewrite; C14: and by write + read, also of the rewritten map *)
+           Some ((String.sub before 3 (String.length before - 3) = aft || List.length toks = 0) && String.sub before 3 (String.length before - 3) = reser && reser2 = aft)
+         | Some true, [before; _; aft; reser; reser2] -> Some (not (List.mem "panic" (split_list aft)) && String.sub before 3 (String.length before - 3) = reser && reser2 = aft)
          | Some true, _ -> Some false
          | p, _ -> p) in
        (* a function map whose entries are not in increasing order (kind "m") is binary-searched by the crate: the answer then depends on
